@@ -61,10 +61,13 @@ Dispatch == [guess_options |-> [triples |-> GuessOptionsLT(FALSE), quads |-> Gue
              stream_for_type |-> [i \in 1..4 |-> [pt |-> i - 1, cls |-> StreamForType(i - 1)]],
              flow_for_type |-> [i \in 1..8 |-> [lt |-> LTSeq[i], flow |-> FlowForTypeOrErr(LTSeq[i])]]]
 
-VARIABLES cfg, pc, kind, flowLT, fsz, buf, pend, written, sinks, stmts, raised
-vars == <<cfg, pc, kind, flowLT, fsz, buf, pend, written, sinks, stmts, raised>>
+VARIABLES cfg, pc, kind, flowLT, fsz, buf, pend, written, sinks, stmts, raised,
+          graphs,    \* graphs of the current sink still to be written (an rdflib Dataset handed to a TripleStream is unpacked graph by graph)
+          frames     \* frames handed out so far
+vars == <<cfg, pc, kind, flowLT, fsz, buf, pend, written, sinks, stmts, raised, graphs, frames>>
 
-Lattice == [sclass : SClasses, lt : LTypes, delimited : BOOLEAN, fs : FrameSizes, flow : FlowOpts, nsinks : {1, 2}]
+Lattice == {c \in [sclass : SClasses, lt : LTypes, delimited : BOOLEAN, fs : FrameSizes, flow : FlowOpts, nsinks : {1, 2}, ngraphs : {1, 2}] :
+              c.ngraphs = 2 => (c.sclass = "triple" /\ c.nsinks = 1)}
 
 Init ==
   /\ cfg \in Lattice
@@ -73,6 +76,7 @@ Init ==
   /\ buf = 0 /\ pend = 0 /\ written = 0
   /\ sinks = 0 /\ stmts = 0
   /\ raised = ""
+  /\ graphs = 0 /\ frames = 0
 
 Construct ==
   /\ pc = "construct"
@@ -87,49 +91,54 @@ Construct ==
         /\ IF SpecForbids(PTypeOf(cfg.sclass), lt)
            THEN raised' = "JellyAssertionError" /\ pc' = "returned"
            ELSE raised' = "" /\ pc' = "enroll"
-  /\ sinks' = cfg.nsinks
-  /\ UNCHANGED <<cfg, buf, pend, written, stmts>>
+  /\ sinks' = cfg.nsinks /\ graphs' = cfg.ngraphs
+  /\ UNCHANGED <<cfg, buf, pend, written, stmts, frames>>
 
-Flush == /\ buf' = 0 /\ pend' = 0 /\ written' = written + pend
+Flush == /\ buf' = 0 /\ pend' = 0 /\ written' = written + pend /\ frames' = frames + (IF buf > 0 THEN 1 ELSE 0)     \* to_stream_frame: None if the flow is empty
 
 Enroll ==                        \* once per stream; the options row goes into the flow
   /\ pc = "enroll"
   /\ buf' = buf + 1
   /\ pc' = "sink" /\ stmts' = 2
-  /\ UNCHANGED <<cfg, kind, flowLT, fsz, pend, written, sinks, raised>>
+  /\ UNCHANGED <<cfg, kind, flowLT, fsz, pend, written, sinks, raised, graphs, frames>>
 
 Statement ==                     \* 2 rows (an entry and the statement); GraphStream brackets are not counted
   /\ pc = "sink" /\ stmts > 0
   /\ stmts' = stmts - 1
   /\ IF Bounded(kind) /\ buf + 2 >= fsz
-     THEN /\ buf' = 0 /\ pend' = 0 /\ written' = written + pend + 1       \* frame_from_bounds
-     ELSE /\ buf' = buf + 2 /\ pend' = pend + 1 /\ written' = written
-  /\ UNCHANGED <<cfg, pc, kind, flowLT, fsz, sinks, raised>>
+     THEN /\ buf' = 0 /\ pend' = 0 /\ written' = written + pend + 1 /\ frames' = frames + 1      \* frame_from_bounds
+     ELSE /\ buf' = buf + 2 /\ pend' = pend + 1 /\ written' = written /\ frames' = frames
+  /\ UNCHANGED <<cfg, pc, kind, flowLT, fsz, sinks, raised, graphs>>
 
-EndOfSink ==                     \* frame_from_graph (TripleStream) / frame_from_dataset (QuadStream, GraphStream)
+EndOfSink ==                     \* frame_from_graph (TripleStream: after EVERY graph of the sink) / frame_from_dataset (QuadStream, GraphStream)
   /\ pc = "sink" /\ stmts = 0
   /\ IF (cfg.sclass = "triple" /\ kind = "graphs") \/ (cfg.sclass # "triple" /\ kind = "datasets")
-     THEN Flush ELSE UNCHANGED <<buf, pend, written>>
-  /\ pc' = "final"
-  /\ UNCHANGED <<cfg, kind, flowLT, fsz, sinks, stmts, raised>>
+     THEN Flush ELSE UNCHANGED <<buf, pend, written, frames>>
+  /\ IF graphs > 1
+     THEN pc' = "sink" /\ graphs' = graphs - 1 /\ stmts' = 2              \* next graph of the same Dataset
+     ELSE pc' = "final" /\ graphs' = 0 /\ stmts' = stmts
+  /\ UNCHANGED <<cfg, kind, flowLT, fsz, sinks, raised>>
 
 FinalFlush ==                    \* end of stream_frames: `if <guard> and (frame := stream.flow.to_stream_frame())`
   /\ pc = "final"
   /\ IF FlushGuard = "always" \/ flowLT \in FlatLT
-     THEN Flush ELSE UNCHANGED <<buf, pend, written>>
+     THEN Flush ELSE UNCHANGED <<buf, pend, written, frames>>
   /\ IF sinks > 1
-     THEN pc' = "sink" /\ sinks' = sinks - 1 /\ stmts' = 2                 \* next sink, same stream (grouped entry points)
-     ELSE pc' = "returned" /\ sinks' = 0 /\ stmts' = 0
+     THEN pc' = "sink" /\ sinks' = sinks - 1 /\ stmts' = 2 /\ graphs' = cfg.ngraphs      \* next sink, same stream (grouped entry points)
+     ELSE pc' = "returned" /\ sinks' = 0 /\ stmts' = 0 /\ graphs' = 0
   /\ UNCHANGED <<cfg, kind, flowLT, fsz, raised>>
 
 Next == Construct \/ Enroll \/ Statement \/ EndOfSink \/ FinalFlush
 Spec == Init /\ [][Next]_vars
 
-NoSilentDrop == pc = "returned" => (raised # "" \/ (pend = 0 /\ buf = 0 /\ written = 2 * cfg.nsinks))
+NoSilentDrop == pc = "returned" => (raised # "" \/ (pend = 0 /\ buf = 0 /\ written = 2 * cfg.nsinks * cfg.ngraphs))
+OneFramePerGraph ==              \* C07, serializer side: a grouped flow hands out one frame per graph / dataset written
+  pc = "returned" /\ raised = "" /\ ((cfg.sclass = "triple" /\ kind = "graphs") \/ (cfg.sclass # "triple" /\ kind = "datasets"))
+     => frames = cfg.nsinks * cfg.ngraphs
 RefusesForbidden == pc = "returned" /\ SpecForbids(PTypeOf(cfg.sclass), flowLT) => raised # ""
 
 PrintDispatch == pc = "construct" => PrintT("DISPATCH " \o ToJson(Dispatch))
 PrintOutcome ==
   pc = "returned" => PrintT("OUTCOME " \o ToJson([cfg |-> cfg, kind |-> kind, lt |-> flowLT, fsz |-> fsz, raised |-> raised,
-                                                   written |-> written, left |-> pend]))
+                                                   written |-> written, left |-> pend, frames |-> frames]))
 =============================================================================
